@@ -363,9 +363,11 @@ func (w *World) ingressDocs() []Doc {
 	}
 	for _, r := range w.Routes {
 		k := &ocroutev1.Route{TypeMeta: metav1.TypeMeta{APIVersion: "route.openshift.io/v1", Kind: "Route"}, ObjectMeta: metav1.ObjectMeta{Name: r.Name, Namespace: r.Ns}}
-		k.Spec.To = ocroutev1.RouteTargetReference{Kind: "Service", Name: r.To}
-		for _, a := range r.Alt {
-			k.Spec.AlternateBackends = append(k.Spec.AlternateBackends, ocroutev1.RouteTargetReference{Kind: "Service", Name: a})
+		k0, _ := r.refKind(0)
+		k.Spec.To = ocroutev1.RouteTargetReference{Kind: k0, Name: r.To}
+		for i, a := range r.Alt {
+			ki, _ := r.refKind(i + 1)
+			k.Spec.AlternateBackends = append(k.Spec.AlternateBackends, ocroutev1.RouteTargetReference{Kind: ki, Name: a})
 		}
 		if r.TargetName != "" {
 			k.Spec.Port = &ocroutev1.RoutePort{TargetPort: intstr.FromString(r.TargetName)}
